@@ -237,7 +237,7 @@ def subst(ty, conc):
 
 def run_e2(res, tier, extended=True):
     progs = [p for p in e2_programs(tier) if extended or not p[0].startswith("pgx")]
-    cp = e2.Corpus("generic-" + tier)
+    cp = e2.Corpus(("generic-" if extended else "genericbase-") + tier)
     recs = [model.e1_contract_record(pid, c, want="items") for pid, c, params, used, conc in progs]
     obs = {o["id"]: o for o in core.e1_run(recs, "generic-" + tier)}
     for pid, c, params, used, conc in progs:
